@@ -80,6 +80,19 @@ CLAIMED = {
         "technique": "call-site error-discipline analysis over typed HIR (resolved callees, consumption of io::Result values)",
         "design_ref": "DESIGN.md §3 R-IOERR, §4 C15",
     },
+    "C02": {
+        "text": "Decides structural necessary conditions of exact BFV/BGV evaluation: at every polysmallmod::*_ps call "
+                "the polynomial count is the buffer's own (never another operand's size, through clone chains); every "
+                "_ps/_p wrapper delegates to its own operation class with stride equal to the slice width and the NTT "
+                "wrappers reach the transform of their direction/laziness; the BGV correction factor recorded by "
+                "multiply, square and mod-switch is the modular product the operation implies (symbolic metadata); on "
+                "the BFV and BGV projections no public evaluator operation mixes coefficient-form and NTT-form operands, "
+                "applies a transform / RNS routine outside its domain, or returns lazy or wrongly flagged data.",
+        "note": _TB + "Not decided: exactness of the BEHZ steps, noise growth, the arithmetic of "
+                "balance_correction_factors, equality with the ring product.",
+        "technique": "symbolic buffer dimensions at call sites + operation-class delegation + symbolic metadata + representation typestate",
+        "design_ref": "DESIGN.md §3 R-SHAPE/R-FAMILY/R-METAFLOW/R-REPSTATE, §4 C02",
+    },
     "C03": {
         "text": "Decides the three refusal clauses on the CKKS projection of the program (SchemeType dispatch "
                 "specialised to CKKS): for every form of add/sub/multiply/square/add_plain/sub_plain/multiply_plain, no "
@@ -163,7 +176,7 @@ CLAIMED = {
 
 _NYB = "rules designed (DESIGN.md §4) but not built yet in this tree; not claimed until the check exists"
 NOT_APPLICABLE = {
-    "C01": _NYB, "C02": _NYB,
+    "C01": _NYB,
     "C07": "every clause compares a reported integer with exact big-integer arithmetic on runtime phase/noise "
            "values; no necessary condition is visible in the shape of the code (DESIGN.md §5)",
     "C09": _NYB, "C10": _NYB,
